@@ -498,6 +498,10 @@ snarf_rrule(const char *s, size_t z)
 				rr.count = tmp;
 				break;
 			case KEY_INTER:
+				if (UNLIKELY(tmp < 0 || tmp > 0x7fffffffL)) {
+					/* would wrap to 0 or run backwards */
+					goto bogus;
+				}
 				rr.inter = (unsigned int)tmp;
 				break;
 			}
